@@ -420,3 +420,27 @@ Definition load_case (m : machine) (tables : list (chip * list entry)) (app_id :
   let m' := snd (fst r) in
   (fst (fst r), snd r, machine_digest m',
    map (fun kv => readback_digest (get_routing_table_entries m' (fst (fst kv)) (snd (fst kv)))) m').
+
+(* ------------------------------------------------------------------------------------------------ *)
+(** * Histories: several loads and read-backs on one controller *)
+
+(* The chip and application id of each call are explicit here: which chip a call addresses when x, y
+   and app_id come from `with controller(x=..., y=..., app_id=...)` blocks is the lexical rule of
+   property C18; the harness resolves it (innermost enclosing block that names the argument, also after
+   a block was left by an exception) and the implementation is judged against that. *)
+Inductive hop := HLoad (x y app_id : Z) (es : list entry) | HRead (x y : Z).
+
+Fixpoint run_history (m : machine) (ops : list hop) :=
+  match ops with
+  | [] => ([], m)
+  | HLoad x y a es :: rest =>
+      let r := load_routing_table_entries m es x y a in
+      let rr := run_history (snd (fst r)) rest in
+      (inl (fst (fst r), snd r) :: fst rr, snd rr)
+  | HRead x y :: rest =>
+      let rr := run_history m rest in
+      (inr (readback_digest (get_routing_table_entries m x y)) :: fst rr, snd rr)
+  end.
+
+Definition history_case (m : machine) (ops : list hop) :=
+  let r := run_history m ops in (fst r, machine_digest (snd r)).
